@@ -13,6 +13,8 @@ def cast_name(t):
             return _NAMES[t]
     except TypeError:
         pass
+    if t is int or t == "int":
+        return "i64"
     try:
         dt = _np.dtype(t)
         return {"float32": "f32", "int16": "i16", "int8": "i8", "float64": None, "int64": "i64", "int32": "i32"}.get(dt.name, dt.name)
@@ -20,9 +22,21 @@ def cast_name(t):
         raise Unsupported("cast to %r" % (t,))
 
 
+def sx_trunc(v):
+    """C-style float->int conversion: truncation toward zero (in-range values)."""
+    e = zreal(v)
+    fl = core.sx_floor(SNum(e)).e
+    nfl = core.sx_floor(SNum(-e)).e
+    return SNum(z3.If(e >= 0, fl, -nfl))
+
+
 def cast_scalar(v, name):
     if name is None:
         return v
+    if not core.is_sym(v):
+        return v
+    if name in ("i64", "i32", "int"):
+        return core.concretize(sx_trunc(v))      # integer results are used as indices: fork over the feasible values
     f = core.ufun(name, 1)
     e = zreal(v)
     # idempotence instance for this argument
@@ -36,4 +50,6 @@ def astype(x, t):
     out = _np.empty(xa.shape, dtype=object)
     for idx in _np.ndindex(*xa.shape):
         out[idx] = cast_scalar(xa[idx], name)
+    if name in ("i64", "i32", "int"):
+        return out.astype(_np.int64)
     return out
